@@ -1392,7 +1392,7 @@
   (if (null? args)
       0
       (let lp ((x (car args)) (ls (cdr args)))
-        (if (null? ls) x (lp (gcd2 x (car ls)) (cdr ls))))))
+        (if (null? ls) (abs x) (lp (gcd2 x (car ls)) (cdr ls))))))
 
 (define (lcm2 a b)
   (let ((g (gcd a b)))                  ; 0 only when a = b = 0
@@ -1402,7 +1402,7 @@
   (if (null? args)
       1
       (let lp ((x (car args)) (ls (cdr args)))
-        (if (null? ls) x (lp (lcm2 x (car ls)) (cdr ls))))))
+        (if (null? ls) (abs x) (lp (lcm2 x (car ls)) (cdr ls))))))
 
 (define (max x . rest)
   (define (~max hi ls)
